@@ -449,10 +449,13 @@ func (m *Model) Expect(o Op, writable bool) Exp {
 		if o.K == "SMove2" {
 			b2 = o.B2
 		}
-		_, dstExists := m.S[b2][string(o.Key2)]
+		dstEmpty := len(m.S[b2][string(o.Key2)]) == 0
 		if m.S[o.B][string(o.Key)][string(o.Val)] {
-			// moving into a set that was never created: Redis creates it, nutsdb documents an error
-			return Exp{V: "true", ErrOK: !dstExists}
+			// moving into a set that does not exist: Redis creates it, nutsdb documents an error.  A set
+			// emptied by SRem/SPop/SMove and a set that was never created are the same observation
+			// (DESIGN 1.3; SHasKey above): nutsdb keeps the emptied key in memory but not across a
+			// Merge + reopen, so either answer is accepted for an empty destination.
+			return Exp{V: "true", ErrOK: dstEmpty}
 		}
 		return Exp{V: "false", ErrOK: true}
 
